@@ -4,6 +4,7 @@ import (
 	"encoding/hex"
 	"encoding/json"
 	"github.com/brutella/hc/util"
+	"strings"
 )
 
 // Database stores entities
@@ -90,7 +91,9 @@ func (db *database) entityForKey(key string) (e Entity, err error) {
 	var b []byte
 
 	if b, err = db.storage.Get(key); err == nil {
-		err = json.Unmarshal(b, &e)
+		if err = json.Unmarshal(b, &e); err == nil {
+			e.Name = restoreEntityName(e.Name, key)
+		}
 	}
 
 	return
@@ -98,4 +101,17 @@ func (db *database) entityForKey(key string) (e Entity, err error) {
 
 func toEntityKey(s string) string {
 	return hex.EncodeToString([]byte(s)) + ".entity"
+}
+
+// restoreEntityName returns the name of an entity as it was saved.
+// A name which is not valid UTF-8 cannot be stored in JSON (every invalid byte
+// is replaced by U+FFFD), but the key of an entity holds the name byte for byte.
+// The name from the key is returned if it explains the stored name.
+func restoreEntityName(stored, key string) string {
+	b, err := hex.DecodeString(strings.TrimSuffix(key, ".entity"))
+	if err == nil && string([]rune(string(b))) == stored {
+		return string(b)
+	}
+
+	return stored
 }
